@@ -374,6 +374,76 @@ def rule_f(R, ctx):
         R.ob("C02.f", ps, site, ok, "skips.remove_range(%s)" % sshow(a), cs.loc())
 
 
+def _norm(t):
+    """term without call-site ordinals, plumbing stripped."""
+    t = simp_deep(t)
+    if isinstance(t, tuple):
+        if t and t[0] == "call":
+            return ("call", t[1], tuple(_norm(a) for a in t[2]))
+        return tuple(_norm(x) for x in t)
+    return t
+
+
+def _norm_deep(fn, v, t):
+    return _norm(t)
+
+
+DEPENDENCIES = [
+    ("origin", "yrs::block::Item.origin", False),
+    ("right_origin", "yrs::block::Item.right_origin", False),
+    ("parent branch item", "yrs::branch::Branch.item", False),
+    ("parent id", "yrs::types::TypePtr::ID.0", False),
+    ("quote start", "yrs::types::weak::LinkSource.quote_start", True),
+    ("quote end", "yrs::types::weak::LinkSource.quote_end", True),
+]
+
+
+def rule_g(R, ctx):
+    Y = ctx.yrs
+    R.rule("C02.g", "R-GUARD/R-PROV dependency test: in Update::missing_dependency every `return Ok(Some(id))` is reached only "
+                    "under `store.blocks.is_missing(id)` of the very id returned (the skip-aware presence test: a clock inside an "
+                    "integrated Skip range is absent), and each dependency of an item — left origin, right origin, parent (by "
+                    "branch item and by id), and with feature weak both quotation boundaries — has such a return")
+    fn = Y.fn("yrs::update::Update::missing_dependency")
+    v = FnView(fn)
+    rets = []
+    for d in fn.defs().get(0, []):
+        if d[0] != "stmt":
+            continue
+        t = v.terms.rvalue(d[3]["rv"], 40)
+        if t[0] == "agg" and t[1].endswith("Result::Ok") and t[2] and t[2][0][0] == "agg" and t[2][0][1].endswith("Option::Some"):
+            rets.append((d[1], t[2][0][2][0], d[3]["line"]))
+    R.floor("C02.g", "Ok(Some(id)) returns in missing_dependency", len(rets), 6 if ("weak" in Y.features) else 4)
+    seen = {}
+    for bb, idt, line in rets:
+        ok = False
+        for l in v.guards(bb):
+            if l.polarity is True and l.term[0] == "call" and callee_match(l.term[1], "yrs::block_store::BlockStore::is_missing") \
+                    and len(l.term[2]) == 2 and len(l.term) > 3:
+                # re-read the call's arguments at full depth (guard terms are depth-limited)
+                for cs in fn.calls():
+                    if cs.bb == l.term[3] and len(cs.args) == 2 and _norm(v.arg(cs, 1, 40)) == _norm_deep(fn, v, idt) \
+                            and term_has_field(v.arg(cs, 0, 40), "Store.blocks"):
+                        ok = True
+        name = None
+        for nm, fld, _w in DEPENDENCIES:
+            if term_has_field(idt, fld):
+                name = nm
+        site = "return:%s" % (name or sshow(idt, 4))
+        seen[name] = True
+        R.ob("C02.g", fn, site, ok,
+             "returned dependency %s is tested with BlockStore::is_missing on this store" % sshow(idt) if ok else
+             "dependency %s is reported missing under a different test than BlockStore::is_missing(store.blocks, <that id>): %s — "
+             "a skip-unaware presence test lets a block integrate while its dependency is still a gap" %
+             (sshow(idt), [l.desc for l in v.guards(bb)]), "%s:%s" % (fn.file, line))
+    for nm, fld, weak in DEPENDENCIES:
+        if weak and not ("weak" in Y.features):
+            continue
+        R.ob("C02.g", fn, "covers:%s" % nm, nm in seen,
+             "dependency `%s` has a missing-test" % nm if nm in seen else
+             "no `return Ok(Some(..))` tests the dependency `%s` (%s): items would integrate before it arrived" % (nm, fld))
+
+
 def check(ctx, R):
     R.run("C02.a", rule_a, ctx)
     R.run("C02.b", rule_b, ctx)
@@ -381,4 +451,5 @@ def check(ctx, R):
     R.run("C02.c", rule_c, ctx)
     R.run("C02.d", rule_d, ctx)
     R.run("C02.f", rule_f, ctx)
+    R.run("C02.g", rule_g, ctx)
     return {}
